@@ -124,6 +124,10 @@ structure Obj where
   /-- certificate type / secret data type / opaque type, by object type -/
   subtype : Option Nat
   value : String
+  /-- transient, only on an object under construction: the request set `operation_policy_name` (to the empty text,
+  too: the attribute test `if field:` treats it as unset, the INSERT stores it as it is; only `None` takes the column
+  default).  Always `false` on a stored object (`finalize`). -/
+  policyGiven : Bool := false
   deriving Repr, DecidableEq, Inhabited
 
 structure Store where
